@@ -113,6 +113,10 @@ def run(cx, tier='quick'):
                         'syn parses the Rust grammar; quote!/ToTokens print nodes that re-parse in the same category']
     rep.not_decided += ['type and borrow checking of the generated code for concrete user types', 'lints inside expansions',
                         'the converse clause (every documented form accepted) is decided in C13/C14 tables']
+    from .members import check_members
+    from ..facts import Facts as _Facts
+    check_members(cx, rep, _Facts(cx))
+    rep.floor('GEN-MEMBER', 25, '(33 member accesses today)')
     return rep
 
 
